@@ -241,7 +241,9 @@ def _octahedral_from_coords(
 
     parity = int(handedness(coords[[a1, a3, a5, a4]]))
     assert parity == 1 or parity == -1
-    return Octahedral((atoms[0], a1, a2, a3, a4, a5, a6), parity)
+    oct_atoms = tuple(atoms[i] for i in (0, a1, a2, a3, a4, a5, a6))
+    assert len(oct_atoms) == 7
+    return Octahedral(oct_atoms, parity)
 
 
 def _planar_bond_from_coords(
